@@ -12,7 +12,7 @@ CFG = {
             "trusted": ["memcpy between an object and memory assembles the object's value per host byte order (C object representation); out-of-bounds accesses are outside the property"]},
     "C16": {"modules": ["W2c2Verif.Props.C16", "W2c2Verif.Props.C16Conc", "W2c2Verif.Props.C16Emit"], "names": gl.ATOMIC_LOADS + gl.ATOMIC_STORES + gl.rmw_names(), "aligned": True,
             "trusted": ["each __atomic_* builtin is ONE indivisible, sequentially consistent memory step on a naturally aligned cell (gcc/clang + hardware; assumed, exercised by a TSan stress run in the thorough tier)"]},
-    "C19": {"modules": ["W2c2Verif.Props.C19"], "names": gl.PLAIN[0] + gl.PLAIN[1] + gl.ATOMIC_LOADS + gl.ATOMIC_STORES + gl.rmw_names(), "aligned": True,
+    "C19": {"modules": ["W2c2Verif.Props.C19", "W2c2Verif.Props.C19Buf"], "names": gl.PLAIN[0] + gl.PLAIN[1] + gl.ATOMIC_LOADS + gl.ATOMIC_STORES + gl.rmw_names(), "aligned": True,
             "trusted": ["no big-endian host or emulator exists in the image: the theorems are about the regenerated BE bodies with End.be; the real BE bodies are executed only in the forced-BE-on-this-LE-host configuration (model instantiated with body=be, host=le)"]},
 }
 
@@ -57,6 +57,8 @@ def run(tier, PROP):
         modules += c18.GROW_CONTENT_MODULES                      # memory.grow: contents of the new pages (Props/C05Grow)
         modules += ["W2c2Verif.Props.C05Sim"]                    # memOK_concrete: C05's functions discharge the simulation's memory hypothesis
         gens += [("MemFuncs", "gen_memfuncs"), ("EmitTable", "gen_emit"), ("Literals", "gen_literals")]
+    if PROP == "C19":
+        gens += [("BufRead", "gen_bufread")]                     # the translator's reading of float immediates (Props/C19Buf)
     if PROP == "C16":
         gens += [("AtomicEmit", "gen_atomic_emit")]              # the translator's dispatch of the atomic instructions (Props/C16Emit)
     pr = prove(chk, modules, gens)
@@ -116,6 +118,8 @@ def run(tier, PROP):
             n_tok, n_e2e = (300, 60) if tier == "quick" else (4000, 600)
             os.makedirs(os.path.join(d, "e2e"), exist_ok=True)
             e2e_extra.run(chk, PROP, [("memory", 1.0)], n_tok, n_e2e, 3, pr["driver_ok"], broken, os.path.join(d, "e2e"))
+        if PROP == "C19":
+            run_bufread(chk, repo, d, tier, broken)
         if PROP == "C16":
             # the emitted atomic instructions through the whole pipeline: real w2c2 -> gcc (-DWASM_THREADS_PTHREADS) vs V8; the
             # directed corpus module calls every one of the 63 instructions (old value and resulting cell)
@@ -134,6 +138,32 @@ def run(tier, PROP):
     elif broken:
         chk.notes.append({"broken": broken[:10]})
     return chk.finish()
+
+
+def run_bufread(chk, repo, d, tier, broken):
+    """bufferReadF32/F64 of the real buffer.h: little-endian build (must give the little-endian reading) and forced
+    big-endian build (must give exactly one full-width byte reversal of it: what a big-endian host turns into the
+    little-endian reading).  A difference is a failing input: the immediate's bytes."""
+    import bufread
+    cs = bufread.cases(chk.rng, 40 if tier == "quick" else 2000)
+    n = 0
+    for be in (False, True):
+        try:
+            exe = bufread.build(repo, d, be)
+            out = bufread.run(exe, cs)
+        except Exception as e:
+            broken.append({"kind": "harness-build", "msg": "bufread: " + str(e)[-800:]})
+            continue
+        for (kind, data), o in zip(cs, out):
+            exp = bufread.expect(kind, data, be)
+            n += 1
+            chk.count_case(("bufread", be, kind, data), True, {"kind": kind, "bytes": data.hex(), "real": o} if n % 40 == 0 else None)
+            if o != exp:
+                chk.violation("bufferRead%s-%s" % ("F32" if kind == "f32" else "F64", "forced-be" if be else "le"),
+                              "bufferRead%s on the immediate bytes %s gives `%s`; the little-endian reading%s requires `%s`"
+                              % ("F32" if kind == "f32" else "F64", data.hex(), o, " (byte-reversed once at full width, forced big-endian build on this host)" if be else "", exp),
+                              {"bufread": kind, "bytes": data.hex(), "real": o, "expected": exp, "big_endian": be}, True)
+    chk.coverage["bufread_cases"] = n
 
 
 def be_on_le_expect(case, sig):
@@ -163,6 +193,13 @@ def mo_run(exe, lines):
 def replay(path, PROP):
     import json
     r = json.load(open(path))
+    if "bufread" in r:
+        import bufread
+        with vlib.scratch("memr-") as d:
+            repo = vlib.copy_repo(os.path.join(d, "repo"))
+            out = bufread.run(bufread.build(repo, d, r["big_endian"]), [(r["bufread"], bytes.fromhex(r["bytes"]))])[0]
+        print(f"replay bufferRead {r['bufread']} {r['bytes']} (big_endian={r['big_endian']}): real `{out}` expected `{r['expected']}`")
+        return 0 if out == r["expected"] else 1
     if "spec" in r and "line" not in r:   # an e2e violation of an emitted memory instruction
         import c03
         return c03.replay(path, PROP="C03")
